@@ -19,6 +19,7 @@
 import DtnVerif.Lemmas.TcpclShape
 import DtnVerif.Lemmas.TcpclQueueRx
 import DtnVerif.Lemmas.TcpclRun
+import DtnVerif.Lemmas.TcpclRxMore
 import DtnVerif.Generated.Facts
 import Std.Data.String.ToNat
 namespace DtnVerif
@@ -265,9 +266,22 @@ theorem C18_recv_sound (cfg : Cfg) (evs : List Ev) :
     soon as all of that has drained. -/
 theorem C18_idle_iff (e : Ep) :
     (queryVal e .idle = .bool true) ↔
-      (e.rx.buf = [] ∧ e.txBuf = [] ∧ e.connBuf = [] ∧ e.rxTmp = none ∧ e.txTmp = none
+      (e.rx.buf = [] ∧ e.rxMore = false ∧ e.txBuf = [] ∧ e.connBuf = [] ∧ e.rxTmp = none ∧ e.txTmp = none
         ∧ e.txPendStart = [] ∧ e.txPendAck = []) := by
   simp [queryVal, isSessIdle, List.isEmpty_iff, and_assoc]
+
+/-- … and whenever a D-Bus query can run (between callbacks, i.e. at any state reached by whole
+    events) the "later messages of the current read" flag is clear, so the indication is exactly
+    the emptiness of the buffers and transfer slots. -/
+theorem C18_idle_iff_reachable (cfg : Cfg) (evs : List Ev) :
+    let e := runEp { cfg := cfg } evs
+    (queryVal e .idle = .bool true) ↔
+      (e.rx.buf = [] ∧ e.txBuf = [] ∧ e.connBuf = [] ∧ e.rxTmp = none ∧ e.txTmp = none
+        ∧ e.txPendStart = [] ∧ e.txPendAck = []) := by
+  intro e
+  have hm : e.rxMore = false := rxMore_run evs _ rfl
+  rw [C18_idle_iff, hm]
+  simp
 
 /- ------------------------------------------------------------------ a concrete history -/
 
